@@ -623,3 +623,44 @@ func c13TyEqual(a, b *c13Ty) bool {
 	}
 	return true
 }
+
+// maxLeaves: upper bound on the number of file leaves a fake stage produces for this type
+// (arrays and maps have at most 3 entries per level).
+func (t *c13Ty) maxLeaves() int {
+	switch t.Kind {
+	case "f":
+		return 1
+	case "a":
+		n := t.Elem.maxLeaves()
+		for i := 0; i <= t.Extra; i++ {
+			n *= 3
+		}
+		return n
+	case "m":
+		return 3 * t.Elem.maxLeaves()
+	case "t":
+		n := 0
+		for _, m := range t.Ms {
+			n += m.Ty.maxLeaves()
+		}
+		return n
+	}
+	return 0
+}
+
+func (s *c13Sig) maxLeaves() int {
+	n := 0
+	for _, p := range s.Params {
+		n += p.Ty.maxLeaves()
+	}
+	return n
+}
+
+// c13GenSmallSig: a signature whose values stay small (for exhaustive sweeps).
+func c13GenSmallSig(rng *rand.Rand, limit int) *c13Sig {
+	for {
+		if sig := c13GenSig(rng, false); sig.maxLeaves() <= limit && sig.maxLeaves() >= 2 {
+			return sig
+		}
+	}
+}
